@@ -4,7 +4,7 @@ import TpmProofs.Shape
 -/
 
 section
-variable {okc : String → Bool} (abort : Bool)
+variable {okc : MEvent → Prop} {pk : Prim → Bool} (abort : Bool)
 
 theorem Tr.msgCatch {P1 P2 P : List Event → Prop} {s : St} {r : R Val} {k : Val → St → R Val} (id1 id2 : Nat)
     (name : String) (vals : List (String × Val)) (h : Tr P1 s r)
@@ -45,30 +45,30 @@ theorem Tr.gn_weaken {α : Type} {π : Path} {N N' : List String} {s : St} {r : 
 /-! ## areas -/
 
 /-- side condition on a handle / parameter layout: the layout itself and its `.encrypted()` variant -/
-def Ty.areaOk (t : Ty) (okc : String → Bool) (encParam : Ty) : Bool :=
-  t.shapeOk okc &&
+def Ty.areaOk (t : Ty) (pk : Prim → Bool) (encParam : Ty) : Bool :=
+  t.shapeOk pk &&
   (match encVariant encParam t with
-   | some (_, fs) => fs.shapeOk okc && decide (fs.names.Nodup)
+   | some (_, fs) => fs.shapeOk pk && decide (fs.names.Nodup)
    | none => true)
 
-theorem decodeArea_gd (tb : MsgTables) (enc : Bool) (t : Ty) (ht : t.areaOk okc tb.encParam = true) (σ : Path) (s : St) :
+theorem decodeArea_gd (hpk : PrimLink abort pk okc) (tb : MsgTables) (enc : Bool) (t : Ty) (ht : t.areaOk pk tb.encParam = true) (σ : Path) (s : St) :
     Tr (GD okc σ) s (decodeArea abort tb enc t σ s) := by
   simp only [Ty.areaOk, Bool.and_eq_true] at ht
   unfold decodeArea
   split
   · split
-    · exact decode_gd abort t ht.1 σ none s
+    · exact decode_gd abort hpk t ht.1 σ none s
     · rename_i name fs hv
       rw [hv] at ht
       simp only [Bool.and_eq_true, decide_eq_true_eq] at ht
       refine Tr.of_emit (P := GN okc σ fs.names) _ ?_
         (fun E hE => GD.of_parent ⟨σ, .named name true, none, "", 0⟩ rfl (fun n => named_ne_list _ _ n) rfl hE)
-      exact Tr.bind_gn_gw (decodeFields_gn abort fs ht.2.1 ht.2.2 σ [] _) (fun vals t2 _ => Tr.ok_nil _ _ GW.nil)
-  · exact decode_gd abort t ht.1 σ none s
+      exact Tr.bind_gn_gw (decodeFields_gn abort hpk fs ht.2.1 ht.2.2 σ [] _) (fun vals t2 _ => Tr.ok_nil _ _ GW.nil)
+  · exact decode_gd abort hpk t ht.1 σ none s
 
 /-! ## the session list -/
 
-theorem sizedLoop_gr (t : Ty) (ht : t.shapeOk okc = true) (π : Path) (f : String) (cid : Nat) :
+theorem sizedLoop_gr (hpk : PrimLink abort pk okc) (t : Ty) (ht : t.shapeOk pk = true) (π : Path) (f : String) (cid : Nat) :
     ∀ (fuel i : Nat) (acc : List Val) (s : St),
       Tr (GR okc π f i) s (sizedLoop abort t (π ++ [⟨f, none⟩]) cid fuel i acc s) := by
   intro fuel
@@ -83,7 +83,7 @@ theorem sizedLoop_gr (t : Ty) (ht : t.shapeOk okc = true) (π : Path) (f : Strin
       · exact Tr.crash_nil _ _ _ (GR.of_gw π f i GW.nil)
       · split
         · rw [elemPath_snoc']
-          refine Tr.ownCatch abort cid (decode_gd abort t ht _ none s) (fun v t2 _ => ih (i + 1) (acc ++ [v]) t2)
+          refine Tr.ownCatch abort cid (decode_gd abort hpk t ht _ none s) (fun v t2 _ => ih (i + 1) (acc ++ [v]) t2)
             (fun E h => ?_) (fun E w h => ?_) (fun E1 E2 h1 h2 => GR.cons h1 h2)
           · have := GR.cons (E2 := []) h (GR.of_gw π f (i + 1) GW.nil)
             simpa using this
@@ -92,16 +92,16 @@ theorem sizedLoop_gr (t : Ty) (ht : t.shapeOk okc = true) (π : Path) (f : Strin
           exact ((assertDoneSC_gw abort _ _).bind (fun _ t2 _ => Tr.ok_nil _ _ GW.nil) (fun _ h => h)
             (fun _ _ h1 h2 => h1.append h2)).mono (fun _ h => GR.of_gw π f i h)
 
-theorem decodeSized_gn (t : Ty) (ht : t.shapeOk okc = true) (hn : t.name ≠ "BYTE") (π : Path) (f : String) (cid : Nat)
+theorem decodeSized_gn (hpk : PrimLink abort pk okc) (t : Ty) (ht : t.shapeOk pk = true) (hn : t.name ≠ "BYTE") (π : Path) (f : String) (cid : Nat)
     (s : St) : Tr (GN okc π [f]) s (decodeSized abort t (π ++ [⟨f, none⟩]) cid s) := by
   unfold decodeSized
-  exact list_gn π f t.name s _ (sizedLoop_gr abort t ht π f cid _ 0 [] _) (fun h => absurd h hn)
+  exact list_gn π f t.name s _ (sizedLoop_gr abort hpk t ht π f cid _ 0 [] _) (fun h => absurd h hn)
 end
 
 /-! ## commands and responses -/
 
 /-- the events of a message: under `σ`, and (unless there are none) starting with the message's root event at `σ` -/
-def GM (okc : String → Bool) (σ : Path) (E : List Event) : Prop :=
+def GM (okc : MEvent → Prop) (σ : Path) (E : List Event) : Prop :=
   GD okc σ E ∧ (E = [] ∨ ∃ m0 E', E = .marshal m0 :: E' ∧ m0.path = σ)
 
 theorem isChild_false_shorter (p q : Path) (h2 : 2 ≤ p.length) (hq : q.length < p.length) : isChild p q = false := by
@@ -115,7 +115,7 @@ theorem isChild_false_shorter (p q : Path) (h2 : 2 ≤ p.length) (hq : q.length 
   simp [this]
 
 /-- messages one after the other: the next message's root event ends every open run of buffer children -/
-theorem GM.append {okc : String → Bool} {σ : Path} (hσ : σ ≠ []) {E1 E2 : List Event} (h1 : GM okc σ E1) (h2 : GM okc σ E2) :
+theorem GM.append {okc : MEvent → Prop} {σ : Path} (hσ : σ ≠ []) {E1 E2 : List Event} (h1 : GM okc σ E1) (h2 : GM okc σ E2) :
     GM okc σ (E1 ++ E2) := by
   refine ⟨⟨fun m hm => ?_, ?_⟩, ?_⟩
   · rcases List.mem_append.mp hm with hm | hm
@@ -138,18 +138,18 @@ theorem GM.append {okc : String → Bool} {σ : Path} (hσ : σ ≠ []) {E1 E2 :
     · simpa using h2.2
     · exact Or.inr ⟨m0, E' ++ E2, rfl, hm0⟩
 
-def MsgTables.shapeOk (tb : MsgTables) (okc : String → Bool) : Bool :=
-  okc tb.tagCmd.name && okc tb.cmdSize.name && okc tb.cc.name && okc tb.authSize.name &&
-  okc tb.tagRsp.name && okc tb.rspSize.name && okc tb.rc.name && okc tb.paramSize.name &&
-  tb.authCmd.shapeOk okc && decide (tb.authCmd.name ≠ "BYTE") && tb.authRsp.shapeOk okc && decide (tb.authRsp.name ≠ "BYTE") &&
-  (tb.cmdHandles ++ tb.cmdParams ++ tb.rspHandles ++ tb.rspParams).all fun kt => kt.2.areaOk okc tb.encParam
+def MsgTables.shapeOk (tb : MsgTables) (pk : Prim → Bool) : Bool :=
+  pk tb.tagCmd && pk tb.cmdSize && pk tb.cc && pk tb.authSize &&
+  pk tb.tagRsp && pk tb.rspSize && pk tb.rc && pk tb.paramSize &&
+  tb.authCmd.shapeOk pk && decide (tb.authCmd.name ≠ "BYTE") && tb.authRsp.shapeOk pk && decide (tb.authRsp.name ≠ "BYTE") &&
+  (tb.cmdHandles ++ tb.cmdParams ++ tb.rspHandles ++ tb.rspParams).all fun kt => kt.2.areaOk pk tb.encParam
 
 section
-variable {okc : String → Bool} (abort : Bool)
+variable {okc : MEvent → Prop} {pk : Prim → Bool} (abort : Bool)
 
-theorem lookupTy_areaOk {tb : MsgTables} (h : tb.shapeOk okc = true) {k : Int} {t : Ty}
+theorem lookupTy_areaOk {tb : MsgTables} (h : tb.shapeOk pk = true) {k : Int} {t : Ty}
     (hl : lookupTy tb.cmdHandles k = some t ∨ lookupTy tb.cmdParams k = some t ∨ lookupTy tb.rspHandles k = some t ∨
-      lookupTy tb.rspParams k = some t) : t.areaOk okc tb.encParam = true := by
+      lookupTy tb.rspParams k = some t) : t.areaOk pk tb.encParam = true := by
   unfold MsgTables.shapeOk at h
   simp only [Bool.and_eq_true, List.all_eq_true, List.mem_append] at h
   have hall := h.2
@@ -165,15 +165,15 @@ theorem lookupTy_areaOk {tb : MsgTables} (h : tb.shapeOk okc = true) {k : Int} {
   · exact hall (k', t) (Or.inl (Or.inr hm))
   · exact hall (k', t) (Or.inr hm)
 
-theorem field_prim (p : Prim) (hp : okc p.name = true) (π : Path) (n : String) (s : St) :
+theorem field_prim (hpk : PrimLink abort pk okc) (p : Prim) (hp : pk p = true) (π : Path) (n : String) (s : St) :
     Tr (GN okc π [n]) s (readPrim abort p (π ++ [⟨n, none⟩]) s) :=
-  (readPrim_gd abort p hp _ s).mono (fun _ h => GN.of_GD h)
+  (readPrim_gd abort hpk p hp _ s).mono (fun _ h => GN.of_GD h)
 
-theorem field_area (tb : MsgTables) (enc : Bool) (t : Ty) (ht : t.areaOk okc tb.encParam = true) (π : Path) (n : String)
+theorem field_area (hpk : PrimLink abort pk okc) (tb : MsgTables) (enc : Bool) (t : Ty) (ht : t.areaOk pk tb.encParam = true) (π : Path) (n : String)
     (s : St) : Tr (GN okc π [n]) s (decodeArea abort tb enc t (π ++ [⟨n, none⟩]) s) :=
-  (decodeArea_gd abort tb enc t ht _ s).mono (fun _ h => GN.of_GD h)
+  (decodeArea_gd abort hpk tb enc t ht _ s).mono (fun _ h => GN.of_GD h)
 
-theorem decodeCommand_gd (tb : MsgTables) (h : tb.shapeOk okc = true) (σ : Path) (s0 : St) :
+theorem decodeCommand_gd (hpk : PrimLink abort pk okc) (tb : MsgTables) (h : tb.shapeOk pk = true) (σ : Path) (s0 : St) :
     Tr (GM okc σ) s0 (decodeCommand abort tb σ s0) := by
   have h' := h
   unfold MsgTables.shapeOk at h'
@@ -184,19 +184,19 @@ theorem decodeCommand_gd (tb : MsgTables) (h : tb.shapeOk okc = true) (σ : Path
   refine Tr.of_emit (P := GN okc σ ["tag", "commandSize", "commandCode", "handles", "authSize", "authorizationArea", "parameters"])
     _ ?_ (fun E hE => ⟨GD.of_parent ⟨σ, .named "Command" false, none, "", 0⟩ rfl (fun n => named_ne_list _ _ n) rfl hE,
       Or.inr ⟨_, _, rfl, rfl⟩⟩)
-  refine Tr.msgCatch_gn abort _ _ _ _ (field_prim abort _ oTag σ "tag" _) (fun tag s1 _ => ?_) (by decide)
-  refine Tr.msgCatch_gn abort _ _ _ _ (field_prim abort _ oCsz σ "commandSize" _) (fun csz s2 _ => ?_) (by decide)
+  refine Tr.msgCatch_gn abort _ _ _ _ (field_prim abort hpk _ oTag σ "tag" _) (fun tag s1 _ => ?_) (by decide)
+  refine Tr.msgCatch_gn abort _ _ _ _ (field_prim abort hpk _ oCsz σ "commandSize" _) (fun csz s2 _ => ?_) (by decide)
   split
   · exact Tr.crash_nil _ _ _ (GN.of_gw σ _ GW.nil)
   · split
     · exact Tr.crash_nil _ _ _ (GN.of_gw σ _ GW.nil)
     · refine Tr.bind_gw_gn (setListed_gw abort _ _ _ s2) (fun _ s3 _ => ?_)
-      refine Tr.msgCatch_gn abort _ _ _ _ (field_prim abort _ oCc σ "commandCode" _) (fun ccv s4 _ => ?_) (by decide)
+      refine Tr.msgCatch_gn abort _ _ _ _ (field_prim abort hpk _ oCc σ "commandCode" _) (fun ccv s4 _ => ?_) (by decide)
       simp only []
       split
       · exact Tr.err_nil _ _ (GN.of_gw σ _ GW.nil)
       · rename_i hty hlh
-        refine Tr.msgCatch_gn abort _ _ _ _ (field_area abort tb false hty (lookupTy_areaOk h (Or.inl hlh)) σ "handles" _)
+        refine Tr.msgCatch_gn abort _ _ _ _ (field_area abort hpk tb false hty (lookupTy_areaOk h (Or.inl hlh)) σ "handles" _)
           (fun hv s5 _ => ?_) (by decide)
         -- parameters (last slot), whatever was decided about the sessions
         have params : ∀ (vals : List (String × Val)) (enc : Bool) (s : St),
@@ -212,18 +212,18 @@ theorem decodeCommand_gd (tb : MsgTables) (h : tb.shapeOk okc = true) (σ : Path
           · exact Tr.err_nil _ _ (GN.of_gw σ _ GW.nil)
           · rename_i pty hlp
             refine Tr.msgCatch_gn (N2 := []) abort _ _ _ _
-              (field_area abort tb enc pty (lookupTy_areaOk h (Or.inr (Or.inl hlp))) σ "parameters" s)
+              (field_area abort hpk tb enc pty (lookupTy_areaOk h (Or.inr (Or.inl hlp))) σ "parameters" s)
               (fun pv t _ => ?_) (by simp)
             exact (assertDone_gw abort _ t).bind (fun _ t2 _ => Tr.ok_nil _ _ GW.nil) (fun _ hh => GN.of_gw σ [] hh)
               (fun _ _ h1 h2 => GN.of_gw σ [] (h1.append h2))
         split
-        · refine Tr.msgCatch_gn abort _ _ _ _ (field_prim abort _ oAsz σ "authSize" _) (fun asz s6 _ => ?_) (by decide)
+        · refine Tr.msgCatch_gn abort _ _ _ _ (field_prim abort hpk _ oAsz σ "authSize" _) (fun asz s6 _ => ?_) (by decide)
           split
           · exact Tr.crash_nil _ _ _ (GN.of_gw σ _ GW.nil)
           · split
             · exact Tr.crash_nil _ _ _ (GN.of_gw σ _ GW.nil)
             · refine Tr.bind_gw_gn (openRegion_gw abort _ _ _ s6) (fun _ s7 _ => ?_)
-              refine Tr.msgCatch_gn abort _ _ _ _ (decodeSized_gn abort tb.authCmd sAuth nAuth σ "authorizationArea" _ s7)
+              refine Tr.msgCatch_gn abort _ _ _ _ (decodeSized_gn abort hpk tb.authCmd sAuth nAuth σ "authorizationArea" _ s7)
                 (fun area s8 _ => ?_) (by decide)
               split
               · exact Tr.crash_nil _ _ _ (GN.of_gw σ _ GW.nil)
@@ -231,7 +231,7 @@ theorem decodeCommand_gd (tb : MsgTables) (h : tb.shapeOk okc = true) (σ : Path
         · exact (params _ false s5).gn_weaken (fun g hg => by
             simp only [List.mem_singleton] at hg; subst hg; simp)
 
-theorem decodeResponse_gd (tb : MsgTables) (h : tb.shapeOk okc = true) (cc : Option Int) (encFlag : Bool) (σ : Path) (s0 : St) :
+theorem decodeResponse_gd (hpk : PrimLink abort pk okc) (tb : MsgTables) (h : tb.shapeOk pk = true) (cc : Option Int) (encFlag : Bool) (σ : Path) (s0 : St) :
     Tr (GM okc σ) s0 (decodeResponse abort tb cc encFlag σ s0) := by
   have h' := h
   unfold MsgTables.shapeOk at h'
@@ -253,27 +253,27 @@ theorem decodeResponse_gd (tb : MsgTables) (h : tb.shapeOk okc = true) (cc : Opt
   refine Tr.of_emit (P := GN okc σ ["tag", "responseSize", "responseCode", "handles", "parameterSize", "parameters", "authorizationArea"])
     _ ?_ (fun E hE => ⟨GD.of_parent ⟨σ, .named "Response" false, none, "", 0⟩ rfl (fun n => named_ne_list _ _ n) rfl hE,
       Or.inr ⟨_, _, rfl, rfl⟩⟩)
-  refine Tr.msgCatch_gn abort _ _ _ _ (field_prim abort _ oTag σ "tag" _) (fun tag s1 _ => ?_) (by decide)
-  refine Tr.msgCatch_gn abort _ _ _ _ (field_prim abort _ oRsz σ "responseSize" _) (fun rsz s2 _ => ?_) (by decide)
+  refine Tr.msgCatch_gn abort _ _ _ _ (field_prim abort hpk _ oTag σ "tag" _) (fun tag s1 _ => ?_) (by decide)
+  refine Tr.msgCatch_gn abort _ _ _ _ (field_prim abort hpk _ oRsz σ "responseSize" _) (fun rsz s2 _ => ?_) (by decide)
   split
   · exact Tr.crash_nil _ _ _ (GN.of_gw σ _ GW.nil)
   · split
     · exact Tr.crash_nil _ _ _ (GN.of_gw σ _ GW.nil)
     · refine Tr.bind_gw_gn (setListed_gw abort _ _ _ s2) (fun _ s3 _ => ?_)
-      refine Tr.msgCatch_gn abort _ _ _ _ (field_prim abort _ oRc σ "responseCode" _) (fun rcv s4 _ => ?_) (by decide)
+      refine Tr.msgCatch_gn abort _ _ _ _ (field_prim abort hpk _ oRc σ "responseCode" _) (fun rcv s4 _ => ?_) (by decide)
       simp only []
       split
       · exact fin _ _ _
       · split
         · exact Tr.err_nil _ _ (GN.of_gw σ _ GW.nil)
         · rename_i hty hlh
-          have hhty : hty.areaOk okc tb.encParam = true := by
+          have hhty : hty.areaOk pk tb.encParam = true := by
             cases cc with
             | none => simp at hlh
             | some c => exact lookupTy_areaOk h (Or.inr (Or.inr (Or.inl (by simpa using hlh))))
-          refine Tr.msgCatch_gn abort _ _ _ _ (field_area abort tb encFlag hty hhty σ "handles" _) (fun hv s5 _ => ?_) (by decide)
+          refine Tr.msgCatch_gn abort _ _ _ _ (field_area abort hpk tb encFlag hty hhty σ "handles" _) (fun hv s5 _ => ?_) (by decide)
           split
-          · refine Tr.msgCatch_gn abort _ _ _ _ (field_prim abort _ oPsz σ "parameterSize" _) (fun psz s6 _ => ?_) (by decide)
+          · refine Tr.msgCatch_gn abort _ _ _ _ (field_prim abort hpk _ oPsz σ "parameterSize" _) (fun psz s6 _ => ?_) (by decide)
             split
             · exact Tr.crash_nil _ _ _ (GN.of_gw σ _ GW.nil)
             · split
@@ -282,12 +282,12 @@ theorem decodeResponse_gd (tb : MsgTables) (h : tb.shapeOk okc = true) (cc : Opt
                 split
                 · exact Tr.err_nil _ _ (GN.of_gw σ _ GW.nil)
                 · rename_i pty hlp
-                  have hpty : pty.areaOk okc tb.encParam = true := by
+                  have hpty : pty.areaOk pk tb.encParam = true := by
                     cases cc with
                     | none => simp at hlp
                     | some c => exact lookupTy_areaOk h (Or.inr (Or.inr (Or.inr (by simpa using hlp))))
                   refine Tr.msgCatch_gn abort _ _ _ _ ?_ (fun pv t _ => ?_) (by decide)
-                  · refine Tr.bind_gn_gw (field_area abort tb encFlag pty hpty σ "parameters" _) (fun pv t _ => ?_)
+                  · refine Tr.bind_gn_gw (field_area abort hpk tb encFlag pty hpty σ "parameters" _) (fun pv t _ => ?_)
                     first
                     | exact (assertDone_gw abort _ t).bind (fun _ t2 _ => Tr.ok_nil _ _ GW.nil) (fun _ hh => hh)
                         (fun _ _ h1 h2 => h1.append h2)
@@ -295,7 +295,7 @@ theorem decodeResponse_gd (tb : MsgTables) (h : tb.shapeOk okc = true) (cc : Opt
                   · split
                     · exact fin _ _ _
                     · refine Tr.msgCatch_gn (N2 := []) abort _ _ _ _
-                        (decodeSized_gn abort tb.authRsp sAuth nAuth σ "authorizationArea" _ t) (fun area t2 _ => ?_) (by simp)
+                        (decodeSized_gn abort hpk tb.authRsp sAuth nAuth σ "authorizationArea" _ t) (fun area t2 _ => ?_) (by simp)
                       split
                       · exact Tr.crash_nil _ _ _ (GN.of_gw σ _ GW.nil)
                       · split
@@ -309,12 +309,12 @@ theorem decodeResponse_gd (tb : MsgTables) (h : tb.shapeOk okc = true) (cc : Opt
             split
             · exact Tr.err_nil _ _ (GN.of_gw σ _ GW.nil)
             · rename_i pty hlp
-              have hpty : pty.areaOk okc tb.encParam = true := by
+              have hpty : pty.areaOk pk tb.encParam = true := by
                 cases cc with
                 | none => simp at hlp
                 | some c => exact lookupTy_areaOk h (Or.inr (Or.inr (Or.inr (by simpa using hlp))))
               refine Tr.msgCatch_gn abort _ _ _ _ ?_ (fun pv t _ => ?_) (by decide)
-              · refine Tr.bind_gn_gw (field_area abort tb encFlag pty hpty σ "parameters" _) (fun pv t _ => ?_)
+              · refine Tr.bind_gn_gw (field_area abort hpk tb encFlag pty hpty σ "parameters" _) (fun pv t _ => ?_)
                 first
                 | exact (assertDone_gw abort _ t).bind (fun _ t2 _ => Tr.ok_nil _ _ GW.nil) (fun _ hh => hh)
                     (fun _ _ h1 h2 => h1.append h2)
@@ -322,7 +322,7 @@ theorem decodeResponse_gd (tb : MsgTables) (h : tb.shapeOk okc = true) (cc : Opt
               · split
                 · exact fin _ _ _
                 · refine Tr.msgCatch_gn (N2 := []) abort _ _ _ _
-                    (decodeSized_gn abort tb.authRsp sAuth nAuth σ "authorizationArea" _ t) (fun area t2 _ => ?_) (by simp)
+                    (decodeSized_gn abort hpk tb.authRsp sAuth nAuth σ "authorizationArea" _ t) (fun area t2 _ => ?_) (by simp)
                   split
                   · exact Tr.crash_nil _ _ _ (GN.of_gw σ _ GW.nil)
                   · split
@@ -333,7 +333,7 @@ theorem decodeResponse_gd (tb : MsgTables) (h : tb.shapeOk okc = true) (cc : Opt
 
 /-! ## the stream loop and the top level -/
 
-theorem decodeStream_gm (tb : MsgTables) (h : tb.shapeOk okc = true) (σ : Path) (hσ : σ ≠ []) :
+theorem decodeStream_gm (hpk : PrimLink abort pk okc) (tb : MsgTables) (h : tb.shapeOk pk = true) (σ : Path) (hσ : σ ≠ []) :
     ∀ (fuel : Nat) (s : St), Tr (GM okc σ) s (decodeStream abort tb σ fuel s) := by
   have hnil : GM okc σ [] := ⟨GD.of_gw σ GW.nil, Or.inl rfl⟩
   have hroot : ∀ (name : String), GM okc σ [.marshal ⟨σ, .named name false, none, "", 0⟩] := fun name =>
@@ -346,22 +346,22 @@ theorem decodeStream_gm (tb : MsgTables) (h : tb.shapeOk okc = true) (σ : Path)
     unfold decodeStream
     split
     · exact Tr.ok_emit1 _ _ _ (hroot _)
-    · refine (decodeCommand_gd abort tb h σ s).bind (fun cmd t _ => ?_) (fun _ hh => hh) (fun _ _ h1 h2 => h1.append hσ h2)
+    · refine (decodeCommand_gd abort hpk tb h σ s).bind (fun cmd t _ => ?_) (fun _ hh => hh) (fun _ _ h1 h2 => h1.append hσ h2)
       split
       · exact Tr.crash_nil _ _ _ hnil
       · split
         · exact Tr.ok_emit1 _ _ _ (hroot _)
-        · exact (decodeResponse_gd abort tb h _ _ σ t).bind (fun _ t2 _ => ih t2) (fun _ hh => hh)
+        · exact (decodeResponse_gd abort hpk tb h _ _ σ t).bind (fun _ t2 _ => ih t2) (fun _ hh => hh)
             (fun _ _ h1 h2 => h1.append hσ h2)
 
 /-- **every run of every top-level decode, in either mode, on every input** -/
-theorem runWalker_gd (tb : MsgTables) (h : tb.shapeOk okc = true) (top : Top)
-    (htop : ∀ t, top = .ty t → t.shapeOk okc = true) (x : List Byte) :
+theorem runWalker_gd (hpk : PrimLink abort pk okc) (tb : MsgTables) (h : tb.shapeOk pk = true) (top : Top)
+    (htop : ∀ t, top = .ty t → t.shapeOk pk = true) (x : List Byte) :
     Tr (GD okc rootPath) (initSt x) (runWalker abort tb top x) := by
   unfold runWalker
   cases top with
-  | ty t => exact decode_gd abort t (htop t rfl) rootPath none _
-  | command => exact (decodeCommand_gd abort tb h rootPath _).mono (fun _ hh => hh.1)
-  | response cc enc => exact (decodeResponse_gd abort tb h cc enc rootPath _).mono (fun _ hh => hh.1)
-  | stream => exact (decodeStream_gm abort tb h rootPath (by simp [rootPath]) _ _).mono (fun _ hh => hh.1)
+  | ty t => exact decode_gd abort hpk t (htop t rfl) rootPath none _
+  | command => exact (decodeCommand_gd abort hpk tb h rootPath _).mono (fun _ hh => hh.1)
+  | response cc enc => exact (decodeResponse_gd abort hpk tb h cc enc rootPath _).mono (fun _ hh => hh.1)
+  | stream => exact (decodeStream_gm abort hpk tb h rootPath (by simp [rootPath]) _ _).mono (fun _ hh => hh.1)
 end
